@@ -432,7 +432,21 @@ def encode_fn(rep, f, c):
         TR = ('init', TRl)
         ok = TRl is not None
         kinds = set()
-        for p in [p for p in region_paths(b, heads[0]) if feasible(p) and p.end[0] != 'diverge']:
+        lpaths = [p for p in region_paths(b, heads[0]) if feasible(p) and p.end[0] != 'diverge']
+        # the unmappable flag: the bool that some iteration ORs the call's had_unmappables into
+        TEl = None
+        for p in lpaths:
+            ec_ = [e for e in p.calls() if e[1] == 'Encoder::encode_from_utf8_to_vec']
+            if len(ec_) != 1:
+                continue
+            res = ('call', ec_[0][1], ec_[0][2], ec_[0][3])
+            for l, v in p.env.items():
+                if isinstance(l, int) and b.locals[l]['ty'] == 'bool' and len(b.defs.get(l, [])) >= 2 and v != ('init', l) and v != ('c', 0, 'bool') and \
+                        or_of(p, v, ('init', l), tuple_field(res, 2)):
+                    TEl = l
+        TE = ('init', TEl) if TEl is not None else None
+        flag_ok = TEl is not None
+        for p in lpaths:
             ec_ = [e for e in p.calls() if e[1] == 'Encoder::encode_from_utf8_to_vec']
             if len(ec_) != 1:
                 ok = False
@@ -443,13 +457,23 @@ def encode_fn(rep, f, c):
             res = ('call', ec_[0][1], a, ec_[0][3])
             kind_ = result_kind(f, p, tuple_field(res, 0))
             rv = p.env.get(0)
+            he = tuple_field(res, 2)
             if kind_ == 'InputEmpty':
                 kinds.add('done')
                 ok &= p.end[0] == 'return' and rv is not None and rv[0] == 'agg' and find_agg(rv[2][0], 'Cow::Owned') is not None
+                if TEl is not None:
+                    flag_ok &= rv is not None and rv[0] == 'agg' and len(rv[2]) == 3 and or_of(p, rv[2][2], TE, he)
             elif kind_ == 'OutputFull':
                 kinds.add('grow')
                 ok &= p.end[0] == 'back' and sum_of(p.env.get(TRl, TR), TR, tuple_field(res, 1))
+                if TEl is not None:
+                    flag_ok &= or_of(p, p.env.get(TEl, TE), TE, he)
         rep.ob('C11-D3.encode-loop', fn, ok and kinds == {'done', 'grow'}, 'encode loop is not: encode_from_utf8_to_vec(&string[total_read..], &mut vec, true) until InputEmpty, growing on OutputFull', site, {'cases': sorted(kinds)}, c)
+        if TEl is not None:
+            for p in [p for p in pre if p.end[0] == 'stop']:
+                flag_ok &= p.env.get(TEl) == ('c', 0, 'bool')
+        rep.ob('C11-D3.encode-flag', fn, flag_ok, 'the had_unmappables results of the encode_from_utf8_to_vec calls are not accumulated (OR-ed, starting from false) across the '
+               'iterations of the loop and returned: replacements made by an earlier call are not reported', site, None, c)
 
 
 def run(rep, facts, tier):
